@@ -27,15 +27,19 @@ def partOps : List String := ["part", "pold", "pnew", "part2", "pachro", "pchro"
 def hashBytes (h : UInt64) (bs : Bytes) : UInt64 := bs.foldl (fun h b => mix h b.toUInt64) h
 def hashArr (h : UInt64) (a : Array UInt8) : UInt64 := a.foldl (fun h b => mix h b.toUInt64) h
 
-/-- digest of the controller state C04 compares after recovery -/
-def stateDigest (c : Ctrl) : String :=
+/-- digest of the controller state C04 compares after recovery: the planes the recovery's
+    full-frame update wrote, the addressing registers, power and sleep state -/
+def stateDigest (p : Panel) (c : Ctrl) (planes : List Nat) : String :=
+  -- the panel's region of each plane (RAM beyond the panel's columns / rows is not image memory)
+  let h := planes.foldl (fun h pl =>
+    let wb := planeBytes p pl c / p.height
+    (List.range p.height).foldl (fun h r =>
+      (List.range wb).foldl (fun h col => mix h (planeAt c pl (rowMap p.name r) col).toUInt64) h) (mix h (UInt64.ofNat pl))) H0
   match c with
   | .ssd s =>
-    let h := hashArr (hashArr H0 s.bw) s.red
-    s!"ram={hex16 h} win={s.xs},{s.xe},{s.ys},{s.ye} ctr={s.cx},{s.cy} entry={s.entry} asleep={s.asleep}"
+    s!"planes={planes} ram={hex16 h} win={s.xs},{s.xe},{s.ys},{s.ye} ctr={s.cx},{s.cy} entry={s.entry} asleep={s.asleep}"
   | .uc u =>
-    let h := hashArr (hashArr H0 u.p1) u.p2
-    s!"ram={hex16 h} partial={u.partialOn} powered={u.powered} asleep={u.asleep}"
+    s!"planes={planes} ram={hex16 h} partial={u.partialOn} powered={u.powered} asleep={u.asleep}"
 
 /-! ## C05 monitor over the events of a whole scenario -/
 
@@ -130,6 +134,8 @@ def panelVerdicts (f : Feat) (props : List String) (p : Panel) (sc : Scenario) (
   let mut lutMode : Refresh := .full
   let mut prevBg : Option Nat := none
   let mut faultSeen := false
+  let mut wakeSeen := false
+  let mut probePlanes : List Nat := []
   let mut k := 0
   let mut wHash := H0
   for t in traces do
@@ -152,12 +158,19 @@ def panelVerdicts (f : Feat) (props : List String) (p : Panel) (sc : Scenario) (
       if (name == "new" ∨ name == "wake") ∧ (ok ∨ hasRst) then acc := acc.add "C11" (c11 p a t.evs true)
       else if hasRst then acc := acc.add "C11" (c11 p a t.evs false)
     -- C18
-    if want "C18" then
+    if want "C18" ∧ ok then
       acc := acc.add "C18" (c18 p a t.evs)
-      let progsWindow := (opBlocks t.evs).any (fun b => match b with | .c 0x44 _ => true | _ => false) ∧
-        (opBlocks t.evs).any (fun b => match b with | .c 0x45 _ => true | _ => false)
-      if ok ∧ progsWindow ∧ ["new", "wake", "upd", "updisp", "clear", "base", "newf", "updispnew"].contains name then
+      let blocks := opBlocks t.evs
+      let isCmd (c : UInt8) (b : Blk) : Bool := match b with | .c c' _ => c' == c | _ => false
+      let progsWindow := blocks.any (isCmd 0x44) ∧ blocks.any (isCmd 0x45)
+      -- a window programmed after the operation's last image data can only be a restoration of
+      -- the full frame
+      let tail := (blocks.reverse.takeWhile fun b => !(isCmd 0x24 b || isCmd 0x26 b)).reverse
+      let restores := tail.length < blocks.length ∧ tail.any (isCmd 0x44) ∧ tail.any (isCmd 0x45)
+      if (progsWindow ∧ ["new", "wake", "upd", "updisp", "clear", "base", "newf", "updispnew"].contains name) ∨ restores then
         acc := acc.add "C18" (c18Window p a after)
+    if ok ∧ (name == "upd") then
+      probePlanes := ((newEpis before after).map (·.plane)).eraseDups.mergeSort (· ≤ ·)
     -- C01 / C02: full-frame delivery
     if ok ∧ fullOps.contains name ∧ !(fullTargets p.name name).isEmpty then
       if want "C01" then
@@ -165,7 +178,10 @@ def panelVerdicts (f : Feat) (props : List String) (p : Panel) (sc : Scenario) (
         if name == "updisp" ∨ name == "updispnew" then
           let n := (newRefreshes before after).length
           acc := acc.add "C01" (if n = 1 then [] else [s!"site={site} reason=refresh-count got={n} want=1"])
-      if want "C02" ∧ k + 1 = traces.length then acc := acc.add "C02" (c01Full p a before after)
+      -- the probe: the full-frame update right before the final display call
+      if want "C02" ∧ k + 2 = traces.length then acc := acc.add "C02" (c01Full p a before after)
+      -- C08 (iv): a full-frame update after sleep + wake_up has the effect it has after construction
+      if want "C08" ∧ wakeSeen then acc := acc.add "C08" ((c01Full p a before after).map (· ++ " after=wake_up"))
     if ok ∧ want "C01" ∧ (name == "disp" ∨ name == "dispnew") then acc := acc.add "C01" (c01Disp p a before after)
     -- C06
     if ok ∧ want "C06" ∧ !(partTargets p.name name).isEmpty then acc := acc.add "C06" (c06 p a t.evs before after)
@@ -226,9 +242,10 @@ def panelVerdicts (f : Feat) (props : List String) (p : Panel) (sc : Scenario) (
       match e with
       | .w dc _ bs => wHash := hashBytes (mix wHash (if dc then 1 else 0)) bs
       | _ => pure ()
+    if name == "wake" then wakeSeen := true
     prevBg := t.bg
     k := k + 1
-  if want "C04" then acc := { acc with notes := acc.notes ++ [s!"C04 {stateDigest sim.peek}"] }
+  if want "C04" then acc := { acc with notes := acc.notes ++ [s!"C04 {stateDigest p sim.peek probePlanes}"] }
   if want "C12" then acc := { acc with notes := acc.notes ++ [s!"C12 wire={hex16 wHash}"] }
   return acc
 
